@@ -52,6 +52,13 @@ def fresh_world(ctx, tool):
         f.write("10 PRINT \"A\"\n")
     with open(os.path.join(d, "q.bas"), "wb") as f:
         f.write(b"\r10 A\r")
+    if tool in ("moto_sdar", "moto_fdar"):
+        # genuine archives of the *other* flavour, of a tape and without extension, under names the tool must refuse:
+        # a tool that forgets the check for one action would read them happily
+        for name, mod in (("real.sd", "moto_sdar"), ("real.fd", "moto_fdar")):
+            subprocess.run([PY, "-B", "-m", mod, "-c", name, "b.dat"], cwd=d, env=P.env(), capture_output=True, timeout=300)
+        shutil.copy(os.path.join(d, "real.fd" if tool == "moto_fdar" else "real.sd"), os.path.join(d, "real"))
+        shutil.copy(os.path.join(d, "real.fd" if tool == "moto_fdar" else "real.sd"), os.path.join(d, "real.k7"))
     return d
 
 
@@ -66,6 +73,14 @@ def run(ctx, res):
         kinds = [("module", None)] + ([("script", scripts[tool])] if tool in scripts else [])
         for kind, target in kinds:
             cfgs = [("help", ["--help"]), ("help_short", ["-h"]), ("unknown_option", ["--bogus", "x"]), ("abbreviated_option", None)]
+            # an unknown option in a command line that is otherwise complete and valid: nothing else can be the reason of a refusal
+            valid = {"moto_tar": ["-c", "arc.k7", "b.dat"], "moto_sdar": ["-c", "arc.sd", "b.dat"], "moto_fdar": ["-c", "arc.fd", "b.dat"],
+                     "moto_nl": ["p.lst"], "moto_prettier": ["p.lst"], "moto_bas2lst": ["q.bas,a"], "moto_lst2bas": ["p.lst"]}[tool]
+            for opt in ("--bogus", "-z", "--force", "--list-all"):
+                cfgs += [(f"unknown_option_in_valid_line:{opt}:first", [opt] + valid), (f"unknown_option_in_valid_line:{opt}:last", valid + [opt])]
+                if tool in ARCHIVERS:
+                    cfgs += [(f"unknown_option_in_valid_line:{opt}:before_sources", valid[:2] + [opt] + valid[2:]),
+                             (f"unknown_option_with_extract:{opt}", ["-x", opt, valid[1]]), (f"unknown_option_with_list:{opt}", ["-t", valid[1], opt])]
             if tool in ARCHIVERS:
                 ext = ARCHIVERS[tool]
                 cfgs += [("no_action", [f"arc.{ext}"]), ("no_action_with_sources", [f"arc.{ext}", "b.dat"]),
@@ -74,7 +89,11 @@ def run(ctx, res):
                 if tool != "moto_tar":
                     wrong = {"sd": "fd", "fd": "sd"}[ext]
                     cfgs += [("wrong_extension", ["-c", f"arc.{wrong}", "b.dat"]), ("wrong_extension_k7", ["-c", "arc.k7", "b.dat"]),
-                             ("no_extension", ["-c", "arc", "b.dat"]), ("wrong_extension_list", ["-t", f"arc.{wrong}"])]
+                             ("no_extension", ["-c", "arc", "b.dat"]), ("wrong_extension_list", ["-t", f"arc.{wrong}"]),
+                             ("wrong_extension_extract", ["-x", f"real.{wrong}"]), ("wrong_extension_extract_k7", ["-x", "real.k7"]),
+                             ("wrong_extension_extract_into", ["-x", "--into", "dest", f"real.{wrong}"]),
+                             ("wrong_extension_add", ["-r", f"real.{wrong}", "b.dat"]), ("no_extension_extract", ["-x", "real"]),
+                             ("wrong_extension_long_actions", ["--extract", f"real.{wrong}"])]
             elif tool == "moto_nl":
                 cfgs += [("abbreviated_option", ["--line-incr", "5", "p.lst"]), ("bad_int", ["-i", "abc", "p.lst"])]
             elif tool == "moto_bas2lst":
@@ -146,14 +165,14 @@ def run(ctx, res):
                 case = {"tool": tool, "invocation": kind, "archive": arc}
                 st.see(dict(case, step="create"))
                 srcs = ["a.bas", "b.dat"] if tool == "moto_tar" else ["--", "a.bas", "b.dat"]
-                rc, out, err = invoke(kind, tool, ["-c", arc] + srcs, d, target)
+                rc, out, err = invoke(kind, tool, (["--create"] if sub == "sub" else ["-c"]) + [arc] + srcs, d, target)
                 if rc != 0 or not os.path.exists(os.path.join(d, arc)):
                     res.violate("placement", "create does not write the archive at the designated path", case, {"rc": rc, "err": err[-300:]}, {"clause": "create_placement"})
                     continue
                 snap = P.tree(d)
                 # list: no effect, with and without --into
                 for into in (None, "dest"):
-                    a = ["-t"] + (["--into", into] if into else []) + [arc]
+                    a = (["--list"] if into else ["-t"]) + (["--into", into] if into else []) + [arc]
                     rc, out, err = invoke(kind, tool, a, d, target)
                     st.see(dict(case, step="list", into=into))
                     if rc != 0:
@@ -170,11 +189,14 @@ def run(ctx, res):
                     res.violate("placement", "extract does not place its outputs beside the archive", case, {"rc": rc, "err": err[-300:], "tree": sorted(P.tree(d))[:12]}, {"clause": "extract_default_placement"})
                 else:
                     # repeated extraction overwrites earlier results
+                    # earlier results: one shorter, one of the very length of the member but with other bytes; the long option name this time
                     with open(places[0], "wb") as f:
                         f.write(b"stale")
-                    rc, out, err = invoke(kind, tool, ["-x", arc], d, target)
+                    with open(places[1], "wb") as f:
+                        f.write(b"ATAD" * 100)
+                    rc, out, err = invoke(kind, tool, ["--extract", arc], d, target)
                     st.see(dict(case, step="re-extract"))
-                    if rc != 0 or open(places[0], "rb").read() != b"10 PRINT\r":
+                    if rc != 0 or open(places[0], "rb").read() != b"10 PRINT\r" or open(places[1], "rb").read() != b"data" * 100:
                         res.violate("placement", "extracting again does not overwrite the earlier results", case, {"rc": rc, "err": err[-300:]}, {"clause": "reextract"})
                 # extract --into
                 rc, out, err = invoke(kind, tool, ["-x", "--into", "dest/deep", arc], d, target)
@@ -183,10 +205,14 @@ def run(ctx, res):
                 if rc != 0 or not all(os.path.exists(p) for p in places):
                     res.violate("placement", "extract --into does not place its outputs under the given directory", case, {"rc": rc, "err": err[-300:], "tree": sorted(P.tree(d))[:12]}, {"clause": "extract_into_placement"})
                 else:
-                    rc, out, err = invoke(kind, tool, ["-x", "--into", "dest/deep", arc], d, target)
+                    with open(places[0], "wb") as f:
+                        f.write(b"10 TNIRP\r")          # same length as the member, other bytes
+                    with open(places[1], "wb") as f:
+                        f.write(b"")
+                    rc, out, err = invoke(kind, tool, ["--extract", "--verbose", "--into", "dest/deep", arc], d, target)
                     st.see(dict(case, step="re-extract --into"))
-                    if rc != 0:
-                        res.violate("placement", "extracting again under --into fails", case, {"rc": rc, "err": err[-300:]}, {"clause": "reextract"})
+                    if rc != 0 or open(places[0], "rb").read() != b"10 PRINT\r" or open(places[1], "rb").read() != b"data" * 100:
+                        res.violate("placement", "extracting again under --into does not overwrite the earlier results", case, {"rc": rc, "err": err[-300:]}, {"clause": "reextract"})
                 # create / add --into: the manuals say the archive goes under the directory
                 for action in (["-c"], ["-r"]) if tool != "moto_tar" else (["-c"],):
                     d2 = fresh_world(ctx, tool)
@@ -205,3 +231,31 @@ def run(ctx, res):
                                     dict(case, action=action[0]), {"rc": rc, "written_under_into": under, "written_at_given_path": beside},
                                     {"clause": "create_into_placement"})
     res.sample({"tool": "moto_tar", "archive": "sub/arc.k7", "steps": ["create", "list", "extract", "re-extract", "extract --into"]})
+
+    # failures of a run must reach the caller as a non-zero exit status, whichever way the tool is started
+    st = res.stream("failure_status", exhaustive=True)
+    for tool, ext in ARCHIVERS.items():
+        kinds = [("module", None)] + ([("script", scripts[tool])] if tool in scripts else [])
+        for kind, target in kinds:
+            d = fresh_world(ctx, tool)
+            with open(os.path.join(d, "big.dat"), "wb") as f:
+                f.write(b"B" * 30000)
+            with open(os.path.join(d, f"broken.{ext}"), "wb") as f:
+                f.write(b"\x3c\x5a not an archive " * 7)
+            cfgs = [("missing_archive_list", ["-t", f"absent.{ext}"]), ("missing_archive_extract", ["-x", f"absent.{ext}"])]
+            if tool == "moto_tar":
+                cfgs += [("does_not_fit", ["-c", "t.k7", "big.dat"]), ("missing_source", ["-c", "t.k7", "a.bas", "absent.dat"])]
+            else:
+                cfgs += [("broken_archive_list", ["-t", f"broken.{ext}"]), ("broken_archive_add", ["-r", f"broken.{ext}", "b.dat"]),
+                         ("missing_archive_add", ["-r", f"absent.{ext}", "b.dat"])]
+            for name, args in cfgs:
+                before = P.tree(d)
+                rc, out, err = invoke(kind, tool, args, d, target)
+                after = P.tree(d)
+                case = {"tool": tool, "invocation": kind, "config": name, "args": args}
+                st.see(case)
+                if rc == 0:
+                    res.violate("failure_status", "a failed run ends with status 0", case, {"out": out[-200:], "err": err[-200:]}, {"clause": "rejects"})
+                if before != after:
+                    ch = sorted(k for k in set(before) | set(after) if before.get(k) != after.get(k))
+                    res.violate("failure_status", "a failed run created or modified a file", case, ch[:5], {"clause": "no_effect"})
